@@ -376,6 +376,29 @@ func c20LargeRun(c *core.Ctx) {
 			}
 		}
 	}
+	// every range size in windows below the powers of two 2^10..2^16 (and just above): a step, a modulus or a table size
+	// that is "coprime with every range" is not coprime with itself — the sizes themselves are the inputs here; a short
+	// history with a free in the middle, closed by six more allocations
+	{
+		var sizes []int64
+		for _, w := range [][2]int64{{1000, 1030}, {4060, 4100}, {16350, 16390}, {32700, 32780}, {65400, 65540}} {
+			for sz := w[0]; sz <= w[1]; sz++ {
+				sizes = append(sizes, sz)
+			}
+		}
+		for si, sz := range sizes {
+			if !c.Mine(2000 + si) {
+				continue
+			}
+			for _, min := range []int64{0, 1} {
+				in := c20Path{Min: min, Max: min + sz - 1, Large: true, Ops: []c20Op{{Op: "Allocate"}, {Op: "Allocate"}, {Op: "Allocate"}, {Op: "FreeReturned", A: 1}, {Op: "Allocate"}, {Op: "Allocate_inRange", A: min + sz/2, B: min + sz - 1}, {Op: "Allocate"}}}
+				n++
+				if c.Begin("path", "IDGenerator.large", in) {
+					c20Exec(c, in)
+				}
+			}
+		}
+	}
 	c.Add("large_range_histories", n)
 	c.Add("transitions", n)
 	c.Add("evaluations", n)
